@@ -2,13 +2,13 @@ CONSTANTS
  MaxLen = 2
  ReadSizes = {5}
  MaxDrops = 1
- MaxFails = 1
+ MaxFails = 0
  MaxSeeks = 0
  MaxAgain = 1
  RetryLimit = 3
  Schemes = {"reg", "ocidir"}
  Vias = {"tarraw", "tarwalk"}
- Withs = {TRUE, FALSE}
+ Withs = {TRUE}
  Chunks = {1, 5}
  LyingSizes = FALSE
  InlineData = FALSE
